@@ -75,7 +75,8 @@ def _dump(solver):
     return "(set-logic ALL)\n" + solver.to_smt2().replace("seq.nth_i", "seq.nth").replace("seq.nth_u", "seq.nth")
 
 
-def check_valid(assumptions, goal, lemmas=(), timeout_ms=None, want_model=True, max_fuel=3, refute=True, thorough=False):
+def check_valid(assumptions, goal, lemmas=(), timeout_ms=None, want_model=True, max_fuel=3, refute=True, thorough=False,
+                fuel_timeout_ms=20000):
     """-> dict(status=proved|refuted|unknown, time_s, model=str|None, backend, fuel)
 
     1. fuel encoding (uninterpreted symbols + definitional instances, depth 1..max_fuel), z3 then cvc5.
@@ -97,9 +98,9 @@ def check_valid(assumptions, goal, lemmas=(), timeout_ms=None, want_model=True, 
         for f in base + lem + insts:
             s.add(defs.to_uf(f))
         smt = _dump(s)
-        has_seq = ("(Seq " in smt) or ("String" in smt) or ("seq." in smt) or ("str." in smt)
+        has_seq = ("(Seq " in smt) or ("seq." in smt) or ("str." in smt)
         need_cvc5 = has_seq or thorough
-        s.set("timeout", min(timeout_ms, 20000))
+        s.set("timeout", min(timeout_ms, fuel_timeout_ms))
         job = _Cvc5Job(smt, 40 if thorough else 12) if need_cvc5 else None
         import threading
         zbox = {}
@@ -210,8 +211,8 @@ def prove_universe(modname):
     """the structural-induction proofs of the list/dict lemma library of one sidecar's universe"""
     sm = load(modname)
     res = []
-    for name, hyps, goal in sm.U.lemma_obligs:
-        r = check_valid(hyps, goal, [], want_model=False)
+    for name, hyps, goal, idx in sm.U.lemma_obligs:
+        r = check_valid(hyps, goal, sm.U.lemmas[:idx], want_model=False)
         res.append(dict(name="universe:" + sm.name + ":" + name, kind="lemma", status=r["status"], time_s=r["time_s"],
                         backend=r["backend"]))
     return res
@@ -279,12 +280,15 @@ def verify_contract(modname, key, tier="quick", shard=0, nshards=1):
             posts = [o for o in cctx.obligs if o.kind == "post"]
             refuted = False
             for o in posts:
-                r = check_valid(o.assumptions, o.goal, lemmas, timeout_ms=10000, want_model=False)
+                r = check_valid(o.assumptions, o.goal, lemmas, timeout_ms=5000, want_model=False, fuel_timeout_ms=2500, max_fuel=2)
                 if r["status"] == "refuted":
                     refuted = True
                     break
+                if r["status"] != "proved":
+                    break
             all_proved = bool(posts) and not refuted and all(
-                check_valid(o.assumptions, o.goal, lemmas, timeout_ms=10000, want_model=False)["status"] == "proved" for o in posts)
+                check_valid(o.assumptions, o.goal, lemmas, timeout_ms=5000, want_model=False, fuel_timeout_ms=2500,
+                            max_fuel=2, refute=False)["status"] == "proved" for o in posts)
             out["canaries"].append(dict(post=can, refuted=refuted, proved=all_proved))
         except Exception as e:
             out["canaries"].append(dict(post=can, refuted=False, proved=False, error=str(e)))
@@ -387,12 +391,24 @@ def prove_lemmas(modname):
                 hs1, g1 = instance(env)
                 ihs = []
                 others = [n for n in lem["vars"] if n != ind]
-                envh = dict(vars_)
-                envh[ind] = tl
-                hh, gh = instance(envh)
-                body = z3.Implies(z3.And(*hh), gh) if hh else gh
-                qv = [vars_[n].t for n in others if vars_[n].ty is not NONE]
-                ihs.append(z3.ForAll(qv, body) if qv else body)
+                # structural induction: the hypothesis holds for every immediate sub-term of the induction type
+                subterms = [tl]
+                if isinstance(T, DictT) and T.val is T:
+                    subterms.append(hv)
+                if isinstance(T, ListT) and isinstance(T.elem, TupleT):
+                    for fi, ft in enumerate(T.elem.elems):
+                        if ft is T:
+                            subterms.append(V(T, T.elem.get(hd.t, fi)))
+                for sub in subterms:
+                    envh = dict(vars_)
+                    envh[ind] = sub
+                    # the other variables are universally quantified in the hypothesis: fresh bound names
+                    bound = {n: fresh(vars_[n].ty, "ih_" + n) for n in others}
+                    envh.update(bound)
+                    hh, gh = instance(envh)
+                    body = z3.Implies(z3.And(*hh), gh) if hh else gh
+                    qv = [bound[n].t for n in others if bound[n].ty is not NONE]
+                    ihs.append(z3.ForAll(qv, body) if qv else body)
                 # nested induction hypotheses for sub-structures named in hints are given as extra instances
                 extra = vars_extra if (isinstance(T, SeqT) or T is STR) else []
                 statuses.append(check_valid(hs1 + ihs + extra, g1, used, want_model=False)["status"])
